@@ -49,7 +49,7 @@ fn lang_tag_matches_table() {
     kani::cover!(ilc == lc && !subs.is_empty());
 }
 
-// @harness name=lang_unknown_is_und kind=Pc tier=quick props=C17 desc="for every u16 code whose primary language is not in the table (decided by a linear scan over the 117 entries, independent of the library's binary search) tag() is 'und'; and a known primary language with an unlisted sublanguage yields exactly the bare language tag"
+// @harness name=lang_unknown_is_und kind=Pc tier=thorough props=C17 desc="for every u16 code whose primary language is not in the table (decided by a linear scan over the 117 entries, independent of the library's binary search) tag() is 'und'; and a known primary language with an unlisted sublanguage yields exactly the bare language tag"
 #[kani::proof]
 #[kani::unwind(120)]
 #[kani::stub(alloc::fmt::format, stub_format)]
@@ -100,4 +100,68 @@ fn lang_wellknown_ids() {
     { let l = Language::from_code(3084); assert!(is(l.tag(), b"fr-CA")); }
     { let l = Language::from_code(1031); assert!(is(l.tag(), b"de-DE")); }
     { let l = Language::from_code(1041); assert!(is(l.tag(), b"ja-JP")); }
+}
+
+
+fn is_bytes(t: &str, e: &[u8]) -> bool {
+    let b = t.as_bytes();
+    if b.len() != e.len() {
+        return false;
+    }
+    let mut i = 0;
+    while i < e.len() {
+        if b[i] != e[i] {
+            return false;
+        }
+        i += 1;
+    }
+    true
+}
+
+// @harness name=lang_from_tag_en kind=Bk tier=quick props=C17 bound="the tags listed in the harness (from_tag builds a Vec of string slices per call; one call costs CBMC ~20-60 s, so the 360 table tags are not enumerated)" desc="from_tag: 'en-QQ' (known language, unknown region) maps to a code of language 9 whose tag is the bare 'en' (not a listed region such as en-CA); 'en-US' -> 1033; 'en' -> 9"
+#[kani::proof]
+#[kani::unwind(125)]
+#[kani::stub(alloc::fmt::format, stub_format)]
+fn lang_from_tag_en() {
+    { let l = Language::from_tag("en-QQ"); assert!(l.code() & 0x3ff == 9); let t = l.tag(); assert!(is_bytes(t, b"en")); }
+    { let l = Language::from_tag("en-US"); assert!(l.code() == 1033); }
+    { let l = Language::from_tag("en"); assert!(l.code() == 9); }
+}
+
+// @harness name=lang_from_tag_fr kind=Bk tier=quick props=C17 bound="the tags listed in the harness (from_tag builds a Vec of string slices per call; one call costs CBMC ~20-60 s, so the 360 table tags are not enumerated)" desc="from_tag: 'fr-QQ' maps to language 12 with the bare tag 'fr' (not fr-CH etc.); 'fr-CA' -> 3084"
+#[kani::proof]
+#[kani::unwind(125)]
+#[kani::stub(alloc::fmt::format, stub_format)]
+fn lang_from_tag_fr() {
+    { let l = Language::from_tag("fr-QQ"); assert!(l.code() & 0x3ff == 12); let t = l.tag(); assert!(is_bytes(t, b"fr")); }
+    { let l = Language::from_tag("fr-CA"); assert!(l.code() == 3084); }
+}
+
+// @harness name=lang_from_tag_unknown kind=Bk tier=quick props=C17 bound="the tags listed in the harness (from_tag builds a Vec of string slices per call; one call costs CBMC ~20-60 s, so the 360 table tags are not enumerated)" desc="from_tag: an unknown language ('qq', 'qq-US') maps to the neutral language 0"
+#[kani::proof]
+#[kani::unwind(125)]
+#[kani::stub(alloc::fmt::format, stub_format)]
+fn lang_from_tag_unknown() {
+    { let l = Language::from_tag("qq"); assert!(l.code() == 0); }
+    { let l = Language::from_tag("qq-US"); assert!(l.code() == 0); }
+}
+
+// @harness name=lang_from_tag_ar_de kind=Bk tier=thorough props=C17 bound="the tags listed in the harness (from_tag builds a Vec of string slices per call; one call costs CBMC ~20-60 s, so the 360 table tags are not enumerated)" desc="from_tag: 'ar-QQ', 'de-QQ' map to the bare language; 'de-DE' -> 1031"
+#[kani::proof]
+#[kani::unwind(125)]
+#[kani::stub(alloc::fmt::format, stub_format)]
+fn lang_from_tag_ar_de() {
+    { let l = Language::from_tag("ar-QQ"); assert!(l.code() & 0x3ff == 1); let t = l.tag(); assert!(is_bytes(t, b"ar")); }
+    { let l = Language::from_tag("de-QQ"); assert!(l.code() & 0x3ff == 7); let t = l.tag(); assert!(is_bytes(t, b"de")); }
+    { let l = Language::from_tag("de-DE"); assert!(l.code() == 1031); }
+}
+
+// @harness name=lang_from_tag_es_zh_ja kind=Bk tier=thorough props=C17 bound="the tags listed in the harness (from_tag builds a Vec of string slices per call; one call costs CBMC ~20-60 s, so the 360 table tags are not enumerated)" desc="from_tag: 'es-QQ', 'zh-QQ' map to the bare language; 'ja-JP' -> 1041"
+#[kani::proof]
+#[kani::unwind(125)]
+#[kani::stub(alloc::fmt::format, stub_format)]
+fn lang_from_tag_es_zh_ja() {
+    { let l = Language::from_tag("es-QQ"); assert!(l.code() & 0x3ff == 10); let t = l.tag(); assert!(is_bytes(t, b"es")); }
+    { let l = Language::from_tag("zh-QQ"); assert!(l.code() & 0x3ff == 4); let t = l.tag(); assert!(is_bytes(t, b"zh")); }
+    { let l = Language::from_tag("ja-JP"); assert!(l.code() == 1041); }
 }
